@@ -142,8 +142,14 @@ def judge_case(case):
             return dict(info, fails=fails)
         x = codec.decode(vs)
         top = run_top(T, x, opts)
-        if top[0] in ("other", "hang"):
+        if top[0] == "hang":
             return dict(info, status="other", fails=fails)
+        internal = None
+        if top[0] == "other":
+            # a combinator isolates the failures of its arguments: an exception escaping it counts as a rejection here
+            # (and is reported with its own signature when the semantics say the input must be accepted)
+            internal = oracle.other_sig(top[1])
+            top = ("perr", top[1])
         # the operators flatten same-kind operands and drop duplicates: the arguments that count are the built type's own
         actual = list(T.args)
         if how in ("op", "func") and comb != "not":
@@ -180,13 +186,13 @@ def judge_case(case):
                     fails.append(("union/exact-type-value-not-passed-unchanged", dict(det, exact=True)))
             elif (top[0] == "ok") != (n_ok > 0):
                 kind = 'accepts-although-no-argument-accepts' if top[0] == 'ok' else 'rejects-although-an-argument-accepts'
-                fails.append((f"union/{kind}{'/with-negated-or-xor-arguments' if nonmono else ''}", det))
+                fails.append((f"union/{kind}{'/with-negated-or-xor-arguments' if nonmono else ''}{'/internal-error:' + internal if internal else ''}", det))
             elif top[0] == "ok":
                 if aspecs is not None and not any((a[0] == "ok" or nonmono) and tspec.conforms(top[1], s) for a, s in zip(accs, aspecs)):
                     fails.append(("union/result-conforms-to-no-accepting-argument", det))
         elif comb == "xor":
             if (top[0] == "ok") != (n_ok == 1):
-                kind = "accepts" if top[0] == "ok" else "rejects"
+                kind = "accepts" if top[0] == "ok" else ("rejects" if not internal else "internal-error:" + internal + "/rejects")
                 exact = any(isinstance(t, type) and type(x) is t for t in built)
                 fails.append((f"xor/{kind}-with-{min(n_ok, 2)}{'+' if n_ok > 2 else ''}-accepting-arguments/{'input-has-exactly-an-argument-type' if exact else 'no-exact-type'}",
                               dict(det, exact=exact)))
